@@ -866,6 +866,10 @@ func (p *Parser) Parse() (Statement, error) {
 		if err != nil {
 			return nil, err
 		}
+		err = selectStmt.CheckFieldNameCycle()
+		if err != nil {
+			return nil, err
+		}
 		if p.tok != nil {
 			wherePos = p.tok.Pos
 		} else {
